@@ -127,6 +127,8 @@ var c11WeirdKeys = []string{
 	"", "-1", "-0", "+5", "007", "0", "1", "2", "3", "5", "999", "1000", "1001", "2147483648", "4294967296",
 	"9223372036854775807", "9223372036854775808", "-9223372036854775808", "99999999999999999999999", "abc", "1.5", " 1",
 	"1 ", "1_0", "１", "0x1", "-", "+", "1e3", "٣", "\x00", "00000000000000000000000000000002",
+	// numerals that other parsers read differently (octal, binary, hexadecimal, digit separators)
+	"010", "011", "0017", "0o17", "0b11", "0x10", "1_000", "08", "09",
 }
 
 var c11WeirdVals = []uint64{
